@@ -158,6 +158,15 @@ def run(tier):
     common.pool()
     import functools
     from .. import scheddfs
+    sn = successive_nodes()
+    rep.cov["successive_node_histories"] = 2
+    if sn:
+        # executions are not independent of each other: nothing explored in one long-lived process would mean anything
+        for key, detail in sn:
+            rep.add(Violation(key, detail, {"kind": "successive-nodes"}))
+        rep.notes.append("exploration skipped: a Node's verdicts depend on Node objects created earlier in the same process")
+        rep.cov.update({"states": 2, "transitions": 4, "traces_validated_against_impl": 4, "max_depth": 2})
+        return rep.finish()
     bound = 2 if tier == "thorough" else 1
     sched = 0
     tasks = [(functools.partial(sched_execute, v), sched_check, bound) for v in SCHED_VARIANTS]
@@ -179,7 +188,26 @@ def run(tier):
     return rep.finish()
 
 
+def successive_nodes():
+    """Two Node objects in one process, one after the other (a restarted node, a failover pair in one program, a test suite): what the
+    first one answered is nothing the second one has answered.  First node: a request of origin a with end-to-end id 1 is answered;
+    second node (fresh world): the T-flagged request with the same identifiers arrives - it was never answered by *this* node and
+    must be delivered.  Also guards the exploration itself: every explored history runs in a fresh node of a long-lived worker."""
+    m = [x for x in models("quick") if x.name == "auto-answer-window-2"][0]
+    vs = []
+    for first, second in ((("m", 0, "rt:a:0:1"),), (("m", 0, "rt:a:1:1"),)), ((("m", 0, "rt:a:0:2"), ("m", 0, "rt:b:0:1")), (("m", 0, "rt:b:1:1"), ("m", 0, "rt:a:1:2"))):
+        r1 = m.build(first)
+        r2 = m.build(second)
+        for r in (r1, r2):
+            if r is None:
+                raise RuntimeError("successive_nodes: history not enabled")
+        vs += [(k + ":in-a-second-node-of-the-same-process", f"first node: {list(first)} -> {r1[1]}; second node (fresh): {list(second)}: {d}") for k, d in r2[1]]
+    return vs
+
+
 def replay(case):
+    if case.get("kind") == "successive-nodes":
+        return [Violation(k, d) for k, d in successive_nodes()]
     if "sched" in case:
         import functools
         from .. import scheddfs
